@@ -1279,120 +1279,9 @@ theorem InFam.mem_nonneg {m : List Int} {k : Int} {c : List Int} (hfam : InFam m
   have := (hfam.2.1 i (by rw [← hfam.1]; exact hi)).1
   rwa [G_lt c i hi] at this
 
-/-- `Value()`/`FreqValue()` on a state holding the vector `c` -/
-theorem MSComb.valueOp_ok (m : List Int) (k : Int) (s : MSComb) (c : List Int) (hs : s.state = some c)
-    (hfam : InFam m k c) (hval : s.value.length = k.toNat) (hk : 0 ≤ k) :
-    ∃ val, MSComb.valueOp s = .ok ({ s with value := val }, (c, expandList 0 c)) ∧ val.length = k.toNat := by
-  have hnn := hfam.mem_nonneg
-  obtain ⟨val, he⟩ := expand_total c 0 0 s.value hnn (by rw [hfam.2.2, hval]; simp; omega)
-  have he' : MSComb.expand c 0 0 s.value = .ok val := by simpa using he
-  obtain ⟨x1, x2⟩ := expand_spec c 0 [] s.value val (by simpa using he')
-  simp only [List.nil_append] at x1 x2
-  have hlen := expandList_length_of_nonneg c 0 hnn
-  rw [hfam.2.2] at hlen
-  have hdrop : s.value.drop (expandList 0 c).length = [] := by
-    apply List.drop_eq_nil_of_le
-    rw [hval]; omega
-  rw [hdrop, List.append_nil] at x1
-  refine ⟨val, ?_, by rw [← x2]; exact hval⟩
-  simp only [MSComb.valueOp, hs, Option.getD_some, he', Outcome.bind_ok, Outcome.pure_eq, x1]
-
 end Iter
 namespace Iter
 open Spec
-
-/-! ### refinement: `Next()` computes the colex successor -/
-
-/-- the state holds the vector `p.1` (and `p.2` is its expansion), satisfies the invariant of Algorithm Q, and is not
-exhausted -/
-def MSComb.Rep (m : List Int) (k : Int) (s : MSComb) (p : Sl × Sl) : Prop :=
-  p.2 = expandList 0 p.1 ∧ s.done = false ∧ s.m = m ∧ s.k = k ∧ s.state = some p.1 ∧ InFam m k p.1 ∧
-    s.value.length = k.toNat ∧
-    (k = 0 ∨ (MGood m ∧ ∃ j : Nat, s.j = (j : Int) ∧ (ISat m p.1 j ∨ IZero m p.1 j)))
-
-theorem MSComb.next_of_next0_true (s s' : MSComb) (hd : s.done = false) (h : MSComb.next0 s = .ok (s', true)) :
-    MSComb.next s = .ok (s', true) := by
-  simp [MSComb.next, hd, h]
-
-theorem MSComb.next_of_next0_false (s s' : MSComb) (hd : s.done = false) (h : MSComb.next0 s = .ok (s', false)) :
-    MSComb.next s = .ok ({ s' with done := true }, false) := by
-  simp [MSComb.next, hd, h]
-
-theorem InFam.PS_le {m : List Int} {k : Int} {c : List Int} (hfam : InFam m k c) (j : Nat) (hj : j ≤ m.length) :
-    PS c j ≤ k := by
-  have := PS_mono' c m.length (fun i hi => (hfam.2.1 i hi).1) j m.length hj (le_refl _)
-  rw [PS_ge c m.length (by rw [hfam.1]), hfam.2.2] at this
-  exact this
-
-/-- `Next()` on a state holding `x` whose colex successor is `y` -/
-theorem MSComb.next_step (m : List Int) (k : Int) (hk : 0 ≤ k) (s : MSComb) (x y : Sl × Sl)
-    (hR : MsNextN m m.length x.1 y.1 ∧ y.2 = expandList 0 y.1) (hrep : MSComb.Rep m k s x) :
-    ∃ s', MSComb.next s = .ok (s', true) ∧ MSComb.Rep m k s' y := by
-  obtain ⟨hx2, hd, hsm, hsk, hs, hfam, hval, hcase⟩ := hrep
-  obtain ⟨hnext, hy2⟩ := hR
-  have hkpos : 0 < k := by
-    obtain ⟨j, _, a2, _, a4, _⟩ := id hnext
-    have := hfam.PS_le j (by omega)
-    omega
-  rcases hcase with hk0 | ⟨hgood, j, hsj, hinv⟩
-  · omega
-  · obtain ⟨s', b, h0, ht, hf⟩ := MSComb.next0_step m k hgood hkpos s x.1 j hs hsm hsk hsj hfam hinv
-    cases b with
-    | false => exact absurd (hf rfl) hnext.not_noNext
-    | true =>
-      obtain ⟨c'', hs'', hn''⟩ := ht rfl
-      have hyc : c'' = y.1 := hn''.unique hnext
-      subst hyc
-      obtain ⟨c', j', e1, e2, e3, e4, e5, e6, f1, f2⟩ :=
-        MSComb.next0_some m k hgood hkpos s s' x.1 j hs hsm hsk hsj hfam hinv h0
-      have : c' = y.1 := by rw [e1] at hs''; simpa using hs''
-      subst this
-      exact ⟨s', MSComb.next_of_next0_true s s' hd h0, hy2, by rw [e5]; exact hd, e2, e3, e1, f1,
-        by rw [e6]; exact hval, Or.inr ⟨hgood, j', e4, f2⟩⟩
-
-/-- `Next()` on a state holding a vector without successor -/
-theorem MSComb.next_last (m : List Int) (k : Int) (hk : 0 ≤ k) (s : MSComb) (x : Sl × Sl)
-    (hno : NoNextN m m.length x.1) (hrep : MSComb.Rep m k s x) :
-    ∃ s', MSComb.next s = .ok (s', false) ∧ s'.done = true := by
-  obtain ⟨hx2, hd, hsm, hsk, hs, hfam, hval, hcase⟩ := hrep
-  rcases hcase with hk0 | ⟨hgood, j, hsj, hinv⟩
-  · have h0 : MSComb.next0 s = .ok (s, false) := by
-      unfold MSComb.next0
-      simp [hs, hsk, hk0]
-    exact ⟨_, MSComb.next_of_next0_false s s hd h0, rfl⟩
-  · by_cases hk0 : k = 0
-    · have h0 : MSComb.next0 s = .ok (s, false) := by
-        unfold MSComb.next0
-        simp [hs, hsk, hk0]
-      exact ⟨_, MSComb.next_of_next0_false s s hd h0, rfl⟩
-    · obtain ⟨s', b, h0, ht, hf⟩ := MSComb.next0_step m k hgood (by omega) s x.1 j hs hsm hsk hsj hfam hinv
-      cases b with
-      | true =>
-        obtain ⟨c'', _, hn''⟩ := ht rfl
-        exact absurd hno hn''.not_noNext
-      | false => exact ⟨_, MSComb.next_of_next0_false s s' hd h0, rfl⟩
-
-/-- the first call of `Next()` -/
-theorem MSComb.next_init (m : List Int) (k : Int) (hm : ∀ v ∈ m, 0 ≤ v) (hk : 0 ≤ k) (hb : msKnownBad m = false) :
-    (k ≤ PS m m.length → ∃ s' c, MSComb.next (MSComb.init m k) = .ok (s', true) ∧ IsGreedyN m m.length k c ∧
-        MSComb.Rep m k s' (c, expandList 0 c)) ∧
-    (PS m m.length < k → ∃ s', MSComb.next (MSComb.init m k) = .ok (s', false) ∧ s'.done = true) := by
-  obtain ⟨s', b, h0, hd, ht, hf⟩ := MSComb.next0_first m k hm hk (MSComb.init m k) rfl rfl rfl
-  constructor
-  · intro hle
-    obtain ⟨hbt, c, hsc, hgr⟩ := ht hle
-    subst hbt
-    obtain ⟨c', e1, e2, e3, e4, f1, f2⟩ := MSComb.next0_none m k hm hk hb (MSComb.init m k) s' rfl rfl rfl h0
-    have : c' = c := by rw [e1] at hsc; simpa using hsc
-    subst this
-    refine ⟨s', c', MSComb.next_of_next0_true _ s' rfl h0, hgr, rfl, by rw [hd]; rfl, e2, e3, e1, f1, e4, ?_⟩
-    rcases f2 with f2 | ⟨g1, j, g2, g3⟩
-    · exact Or.inl f2
-    · exact Or.inr ⟨g1, j, g2, Or.inl g3⟩
-  · intro hlt
-    have hbf := hf hlt
-    subst hbf
-    exact ⟨_, MSComb.next_of_next0_false _ s' rfl h0, rfl⟩
 
 /-! ### the theorems -/
 
@@ -1435,65 +1324,6 @@ theorem msColexList_last (m : List Int) (k : Int) (hm : ∀ v ∈ m, 0 ≤ v) :
   have hsb := InFamN.sum_bounds (m := m) (n := m.length) (k := k) (c := x) hfam
   obtain ⟨_, _, _, h4⟩ := msColexN_chain m (G_nonneg_all m hm) m.length k hsb.1 hsb.2
   exact (msSucc_eq_none_iff m x m.length hfam.1).mpr (h4 x hx)
-
-/-- `MultisetCombinations(m, k)` yields every member of the family exactly once, in colexicographic order of the
-count vectors, each with its expansion; it never panics, then `Next()` returns false for ever. Domain: `m ≥ 0`
-outside the shapes of finding F1, `k ≥ 0`. -/
-theorem MSComb.enumerates_lemma (m : List Int) (k : Int) (hm : ∀ v ∈ m, 0 ≤ v) (hk : 0 ≤ k)
-    (hb : msKnownBad m = false) :
-    ∀ bound, (msColexList m k).length < bound →
-      ∃ s', outputs MSComb.it bound (MSComb.init m k) =
-          ((msColexList m k).map (fun c => (c, expandList 0 c)), s', .exhausted) ∧
-        ∀ n, extras MSComb.it n s' = .ok (List.replicate n none) := by
-  intro bound hbound
-  have hnn := G_nonneg_all m hm
-  obtain ⟨hinit1, hinit2⟩ := MSComb.next_init m k hm hk hb
-  have key := enumerates_aux MSComb.it (MSComb.Rep m k) (fun s => s.done = true)
-    (fun p q => MsNextN m m.length p.1 q.1 ∧ q.2 = expandList 0 q.1) (MSComb.init m k)
-    ((msColexList m k).map (fun c => (c, expandList 0 c)))
-    (by
-      rw [List.isChain_map]
-      exact (msColexN_isChain m hnn m.length k).imp (fun a b hab => ⟨hab, rfl⟩))
-    (by
-      rintro s ⟨c, v⟩ hrep
-      obtain ⟨hx2, hd, hsm, hsk, hs, hfam, hval, hcase⟩ := id hrep
-      simp only at hx2 hs hfam hcase
-      subst hx2
-      obtain ⟨val, e1, e2⟩ := MSComb.valueOp_ok m k s c hs hfam hval hk
-      exact ⟨_, e1, rfl, hd, hsm, hsk, hs, hfam, e2, hcase⟩)
-    (by
-      intro hnil
-      have hnil' : msColexList m k = [] := by simpa using hnil
-      have : PS m m.length < k := by
-        by_contra hc
-        exact (msColexN_chain m hnn m.length k hk (by omega)).1 hnil'
-      exact hinit2 this)
-    (by
-      intro x hx
-      simp only [List.head?_map, Option.mem_def, Option.map_eq_some_iff] at hx
-      obtain ⟨c0, hc0, rfl⟩ := hx
-      have hmem := List.mem_of_mem_head? hc0
-      have hsb := InFamN.sum_bounds ((mem_msColexList m k c0).mp hmem)
-      obtain ⟨_, _, h3, _⟩ := msColexN_chain m hnn m.length k hsb.1 hsb.2
-      obtain ⟨s', c, e1, e2, e3⟩ := hinit1 hsb.2
-      have : c = c0 := e2.unique (h3 c0 hc0)
-      subst this
-      exact ⟨s', e1, e3⟩)
-    (fun x y hR s hrep => MSComb.next_step m k hk s x y hR hrep)
-    (by
-      intro x hx s hrep
-      simp only [List.getLast?_map, Option.mem_def, Option.map_eq_some_iff] at hx
-      obtain ⟨c0, hc0, rfl⟩ := hx
-      have hmem := List.mem_of_mem_getLast? hc0
-      have hsb := InFamN.sum_bounds ((mem_msColexList m k c0).mp hmem)
-      obtain ⟨_, _, _, h4⟩ := msColexN_chain m hnn m.length k hsb.1 hsb.2
-      exact MSComb.next_last m k hk s _ (h4 c0 hc0) hrep)
-    (by
-      intro s hs
-      exact ⟨s, by simp [MSComb.it, MSComb.next, hs], hs⟩)
-    bound (by simpa using hbound)
-  obtain ⟨s', h1, _, h3⟩ := key
-  exact ⟨s', h1, h3⟩
 
 end Iter
 namespace Iter
@@ -1552,27 +1382,5 @@ theorem msColexList_perm_msFamily (m : List Int) (k : Int) (hm : ∀ v ∈ m, 0 
     (msColexList m k).Perm (msFamily m k) :=
   (List.perm_ext_iff_of_nodup (msColexList_nodup m k hm) (msFamily_nodup m k)).mpr
     (mem_msColexList_iff_msFamily m k hm)
-
-end Iter
-namespace Iter
-open Spec
-
-/-- the same, against the reference family `msFamily` (no order): the count vectors yielded are a rearrangement of
-`msFamily m k` — every member exactly once —, each paired with its expansion -/
-theorem MSComb.enumerates_family_lemma (m : List Int) (k : Int) (hm : ∀ v ∈ m, 0 ≤ v) (hk : 0 ≤ k)
-    (hb : msKnownBad m = false) :
-    ∀ bound, (msFamily m k).length < bound →
-      ∃ L s', outputs MSComb.it bound (MSComb.init m k) = (L, s', .exhausted) ∧
-        (L.map (fun p => p.1)).Perm (msFamily m k) ∧ (∀ p ∈ L, p.2 = expandList 0 p.1) ∧
-        ∀ n, extras MSComb.it n s' = .ok (List.replicate n none) := by
-  intro bound hbound
-  have hperm := msColexList_perm_msFamily m k hm
-  obtain ⟨s', h1, h2⟩ := MSComb.enumerates_lemma m k hm hk hb bound (by rw [hperm.length_eq]; exact hbound)
-  refine ⟨_, s', h1, ?_, ?_, h2⟩
-  · simpa [List.map_map, Function.comp_def] using hperm
-  · intro p hp
-    simp only [List.mem_map] at hp
-    obtain ⟨c, _, rfl⟩ := hp
-    rfl
 
 end Iter
